@@ -143,7 +143,7 @@ def showOut (isMap : Bool) (op : Op) (before after : T) : MOut → String
 
 /-- the slot pairs instantiated by the harness -/
 def slotPairs : List (Nat × Nat) :=
-  [(4, 4), (5, 5), (6, 6), (7, 7), (8, 8), (16, 16), (4, 7), (7, 4), (5, 16), (16, 5)]
+  [(4, 4), (4, 5), (5, 4), (5, 5), (6, 6), (7, 7), (8, 8), (16, 16), (4, 7), (7, 4), (5, 16), (16, 5)]
 
 /-- `cfg <kind> <leaf> <inner> <binsearch> <order of register 0> [<order of register 1>]` -/
 def parseCfg (ts : List String) : Option (Cfg × Nat × Nat) :=
